@@ -190,6 +190,13 @@ def gen_inputs(tier, rnd):
             for rows in ([["Ame\u0301l", "ie"], ["Am\u00e9l", "ie"], ["a", "\u20ac"], ["abc", "d"]], [["a", "o\u0308"], ["a", "\u00f6"], ["\u0152", "x"], ["", ""]],
                          [["\u212b", "x"], ["\u00c5", "x"], ["A\u030a", "x"], ["\ufb01", "y"]]):
                 yield {"spec": spec, "rows": rows, "ascii": enc}
+    # records of several thousand characters: a row is written as a whole or not at all, however wide it is
+    wide = {"format": "fixed", "header": 0, "checks": [], "line_delimiter": "lf",
+            "fields": [{"name": "a", "empty": True, "type": "Text", "choices": [], "length": [[4090, 4090]]},
+                       {"name": "b", "empty": True, "type": "Text", "choices": [], "length": [[8, 8]]},
+                       {"name": "c", "empty": True, "type": "Text", "choices": [], "length": [[6, 6]]}]}
+    for enc in (True, "cp1252"):
+        yield {"spec": wide, "rows": [["a" * 10, "x", "1"], ["b" * 4090, "caf\u0301e", "2"], ["c", "y\u20ac" if enc is True else "\u0152\u0301", "3"], ["d", "z", "4"]], "ascii": enc}
     for _ in range(700 if tier == "quick" else 8000):
         spec = V.gen_spec(rnd, header=rnd.choice([0, 0, 1, 1, 2, 3]))
         if spec["format"] == "fixed":
